@@ -233,6 +233,11 @@ Definition judge_numdigits (b n : Z) : list Z :=
   ++ flag (n =? ndigits b) O_NUMDIGITS
   ++ (let bl := bitlen b in if bl >? digitsTableSize then flag (est_ok (go_est bl) bl) O_EST else []).
 
+(* the digit count of 10^k + delta (delta in {-1, 0, 1}, k >= 1), without building the number: k digits for
+   10^k - 1, k + 1 otherwise (Proofs/ReduceProofs.v: judge_numdigits_pow10_sound) *)
+Definition judge_numdigits_pow10 (k delta n : Z) : list Z :=
+  flag (n =? expected_digits_pow10 k delta) O_NUMDIGITS.
+
 Fixpoint trailing_zeros (fuel : nat) (c : Z) : Z :=
   match fuel with O => 0 | S f => if (c =? 0) || negb (c mod 10 =? 0) then 0 else 1 + trailing_zeros f (c / 10) end.
 Definition tz (c : Z) : Z := trailing_zeros (S (Z.to_nat (bitlen c))) c.
